@@ -141,6 +141,7 @@ type fBM struct {
 	blocks    map[int64]*fBlock
 	last      *fBlock
 	pending   []*fPending
+	cancelled []*fPending
 	proposals int
 }
 
@@ -174,11 +175,29 @@ func (bm *fBM) live() []*fPending {
 	for _, p := range bm.pending {
 		if !p.canceled && !p.done {
 			keep = append(keep, p)
+		} else if p.canceled && !p.done {
+			bm.cancelled = append(bm.cancelled, p)
 		}
 	}
 	bm.pending = keep
 	return keep
 }
+// zombies are requests the engine cancelled but whose callback may already have been
+// dispatched by the (real) block manager when Cancel() was called: the engine has to
+// tolerate such a late callback. Only the two most recent ones are kept.
+func (bm *fBM) zombies() []*fPending {
+	var z []*fPending
+	for _, p := range bm.cancelled {
+		if !p.done {
+			z = append(z, p)
+		}
+	}
+	if len(z) > 2 {
+		z = z[len(z)-2:]
+	}
+	return z
+}
+
 func (bm *fBM) Propose(parentID []byte, votes module.CommitVoteSet, cb func(module.BlockCandidate, error)) (module.Canceler, error) {
 	bm.proposals++
 	blk := newFBlock(fBlockHeader{
@@ -608,6 +627,33 @@ func (n *csNode) complete(k int) bool {
 	return true
 }
 
+// completeLate runs the callback of the k-th cancelled-but-dispatched request.
+func (n *csNode) completeLate(k int) bool {
+	if n.dead() {
+		return false
+	}
+	n.bm.live()
+	z := n.bm.zombies()
+	if k >= len(z) {
+		return false
+	}
+	p := z[k]
+	p.done = true
+	n.guard(func() {
+		switch p.kind {
+		case "propose":
+			p.cb(p.blk, nil)
+		case "import":
+			if p.blk.hdr.Bad || p.blk.Height() != n.bm.last.Height()+1 || !bytes.Equal(p.blk.PrevID(), n.bm.last.ID()) {
+				p.cb(nil, fmt.Errorf("invalid block"))
+			} else {
+				p.cb(p.blk, nil)
+			}
+		}
+	})
+	return true
+}
+
 // crashRestart models power loss: volatile state, timers and pending
 // block-manager requests vanish; the WAL keeps what was synced; the clock moves
 // on so that anything re-signed after the restart is distinguishable.
@@ -702,6 +748,10 @@ func (n *csNode) projection(knownPS [][]byte) string {
 	}
 	sb.WriteString("|B")
 	for _, p := range n.bm.live() {
+		fmt.Fprintf(&sb, "%s%v:%s,", p.kind[:1], p.force, shortHex(p.blk.ID()))
+	}
+	sb.WriteString("|Z")
+	for _, p := range n.bm.zombies() {
 		fmt.Fprintf(&sb, "%s%v:%s,", p.kind[:1], p.force, shortHex(p.blk.ID()))
 	}
 	sb.WriteString("|C")
